@@ -15,23 +15,24 @@ import (
 // makes the client panic.
 
 type c05Scenario struct {
-	AfterReconnect bool       `json:"after_reconnect,omitempty"`     // the session under test was re-established by Resume after an earlier loss
-	BackPressure   int        `json:"backpressure_window,omitempty"` // >0: both receive windows are this small and the server stops reading while it sends
-	Held           int        `json:"held_stanzas_before,omitempty"`
-	WebSocket      bool       `json:"websocket"`
-	Fragment       int        `json:"websocket_fragment_every,omitempty"` // >0: every n-th element is sent as a fragmented WebSocket message
-	Component      bool       `json:"component"`
-	Client         ClientOpts `json:"client"`
-	Server         NegScript  `json:"server"`
-	Inbound        []InEl     `json:"inbound"`
-	Cut            bool       `json:"cut"`
-	CutAt          int64      `json:"cut_at"`
-	CutKind        string     `json:"cut_kind"`
-	Seg            int        `json:"segmentation"`
-	LatencyNs      int64      `json:"latency_ns"`
-	Dawdle         int        `json:"handler_dawdle"`
-	Reply          bool       `json:"handler_sends"`
-	Chunk          int        `json:"server_write_chunk"`
+	AfterReconnect  bool       `json:"after_reconnect,omitempty"`                    // the session under test was re-established by Resume after an earlier loss
+	LossWhilePaused bool       `json:"connection_lost_while_answers_wait,omitempty"` // with backpressure_window: the connection is lost while answers to <r/> still wait for their turn; the application then resumes
+	BackPressure    int        `json:"backpressure_window,omitempty"`                // >0: both receive windows are this small and the server stops reading while it sends
+	Held            int        `json:"held_stanzas_before,omitempty"`
+	WebSocket       bool       `json:"websocket"`
+	Fragment        int        `json:"websocket_fragment_every,omitempty"` // >0: every n-th element is sent as a fragmented WebSocket message
+	Component       bool       `json:"component"`
+	Client          ClientOpts `json:"client"`
+	Server          NegScript  `json:"server"`
+	Inbound         []InEl     `json:"inbound"`
+	Cut             bool       `json:"cut"`
+	CutAt           int64      `json:"cut_at"`
+	CutKind         string     `json:"cut_kind"`
+	Seg             int        `json:"segmentation"`
+	LatencyNs       int64      `json:"latency_ns"`
+	Dawdle          int        `json:"handler_dawdle"`
+	Reply           bool       `json:"handler_sends"`
+	Chunk           int        `json:"server_write_chunk"`
 }
 
 func init() {
@@ -41,7 +42,7 @@ func init() {
 		Real:  []string{"xmpp.Client / xmpp.Component receive loops", "xmpp.Router and per-packet route goroutines", "xmpp.XMPPTransport", "stanza.NextPacket and codec"},
 		Stub:  []string{"TCP (simnet)", "XMPP server (scripted model)", "clock (synctest)", "goroutine scheduling (token scheduler)", "sync.RWMutex (equivalent shim)"},
 		Run:   runC05,
-		Reach: []string{"c05.websocket", "c05.websocket_fragmented_message", "c05.backpressure", "c05.r_answered", "c05.after_reconnect"},
+		Reach: []string{"c05.loss_while_answers_wait", "c05.websocket", "c05.websocket_fragmented_message", "c05.backpressure", "c05.r_answered", "c05.after_reconnect"},
 	})
 }
 
@@ -64,6 +65,7 @@ func runC05(e *Engine, g G, o RunOpt) RunInfo {
 		sc.Held = g.Range("held", 2, 4)
 	}
 	bpR := sc.BackPressure > 0 && !o.Avoiding("backpressure-ack-request")
+	sc.LossWhilePaused = bpR && g.Pct("loss-while-paused", 40)
 	sc.AfterReconnect = !sc.Component && !sc.WebSocket && sc.BackPressure == 0 && g.Pct("after-reconnect", 20)
 	sc.Chunk = []int{100000, 700, 64}[g.N("chunk", 3)]
 	n := 0
@@ -135,8 +137,11 @@ func runC05(e *Engine, g G, o RunOpt) RunInfo {
 	var conn *SrvConn
 	answered := 0
 
+	staleAnswers := 0
 	e.Run(func() {
 		var cli *End
+		var cw *CW
+		var srvX *Server
 		var sender xmpp.Sender
 		var sendBack func(s xmpp.Sender, p stanza.Packet)
 		nth := 0
@@ -232,6 +237,7 @@ func runC05(e *Engine, g G, o RunOpt) RunInfo {
 			}
 			conn = s.Conn
 			sender = s.W.Client
+			cw, srvX = s.W, s.Srv
 			if sc.AfterReconnect {
 				// lose this session and have the application resume: everything below happens on the new connection
 				c0 := s.Conn
@@ -289,6 +295,40 @@ func runC05(e *Engine, g G, o RunOpt) RunInfo {
 			base += int64(len(ack))
 		}
 		conn.SendChunks(all.String(), sc.Chunk)
+		if sc.LossWhilePaused && cw != nil && !sc.Cut {
+			// the connection is lost while the peer still does not read: answers to the <r/> of the
+			// burst are waiting for their turn to be written. The application resumes; nothing that
+			// belonged to the lost connection may show up on the new one.
+			e.Sleep(200 * time.Millisecond)
+			nd := countState(cw.Events, xmpp.StateDisconnected)
+			nc := len(srvX.Conns)
+			for len(srvX.Scripts) <= nc {
+				srvX.Scripts = append(srvX.Scripts, sc.Server)
+			}
+			// (the application resumes from within the Disconnected callback, like a StreamManager)
+			resumed := false
+			cw.Client.SetHandler(cw.EventRecorder(func(ev xmpp.Event) error {
+				if xmpp.VerifEventState(ev) == xmpp.StateDisconnected && !resumed {
+					resumed = true
+					err := cw.Client.Resume()
+					e.Logf("app.reconnect", "Resume from the Disconnected callback: %v", err)
+				}
+				return nil
+			}))
+			cli.CutAt = conn.End.TotalWritten
+			cli.CutErr = resetErr("read")
+			if !e.WaitUntilFor("lost-while-paused", time.Minute, func() bool { return countState(cw.Events, xmpp.StateDisconnected) > nd }) {
+				e.Sleep(5 * time.Second)
+				if len(srvX.Conns) > nc {
+					for _, r := range srvX.Conns[nc].Elements() {
+						if r.Item.Elem.Is(nsSM, "a") && r.Phase < 2 {
+							staleAnswers++
+						}
+					}
+				}
+				e.Probe("c05.loss_while_answers_wait")
+			}
+		}
 		conn.PauseReads = false
 		// let everything be delivered, parsed and routed
 		e.WaitUntilFor("drain", 10*time.Minute, func() bool {
@@ -321,6 +361,9 @@ func runC05(e *Engine, g G, o RunOpt) RunInfo {
 	if !established {
 		e.Probe("precondition_failed")
 		return info
+	}
+	if staleAnswers > 0 {
+		e.Violate("C05", "stale-answer-on-next-connection", "%d <a/> answers to acknowledgement requests of the lost connection were written on the next connection before it was authenticated", staleAnswers)
 	}
 	if e.Stuck != "" {
 		e.Violate("C05", "stuck", "%s", e.Stuck)
@@ -373,7 +416,7 @@ func runC05(e *Engine, g G, o RunOpt) RunInfo {
 			}
 		}
 	}
-	if !sc.Component && !sc.Cut {
+	if !sc.Component && !sc.Cut && !sc.LossWhilePaused {
 		if answered != rs {
 			e.Violate("C05", fmt.Sprintf("r-answered-%s", cmp3(answered, rs)), "server sent %d <r/>, received %d <a/>", rs, answered)
 		}
